@@ -138,6 +138,14 @@ def setup(ctx):
 def _alphabet(rnd):
     k = rnd.random()
     atoms = []
+    if k < 0.15:
+        # the same comma list as operand of in / not in on different version-valued variables
+        lst = rnd.choice(["3.8, 3.9", "3.8,3.9", "3.9, 3.10", "3.8"])
+        atoms = [f'python_version in "{lst}"', f'python_version not in "{lst}"', f'python_full_version in "{lst}"',
+                 f'python_full_version not in "{lst}"', f'platform_release in "{lst}"', f'platform_release not in "{lst}"',
+                 'python_full_version >= "3.9.2"', 'python_full_version < "3.9"', 'python_version >= "3.9"',
+                 'python_version < "3.10"', 'platform_release >= "3.9"', 'platform_release < "4.0"']
+        return atoms
     if k < 0.45:
         var = rnd.choice(["python_version", "python_full_version"])
         other = "python_full_version" if var == "python_version" else "python_version"
